@@ -950,6 +950,43 @@ fn fixed_hist(form: &str, lines: &[(&str, Option<&str>, &[&str])]) -> Case {
     }
 }
 
+/// script-implemented commands that loop internally (`for … in` on a fixed line of their own
+/// script.ds), called from the body of a loop of the CALLER whose `for` stands on line index
+/// `pad + 3`: the caller's loop and the command's loop are distinguished only by the line-context
+/// name, so the looped script must end like the unrolled one
+const LINE_CALLS: [(&str, &str, &str); 8] = [
+    ("concat", "r = concat ${r} ${i}", ""),
+    ("array_contains", "r = array_contains ${h} ${i}", ""),
+    ("set_from_array", "s = set_from_array ${h}\nr = set_size ${s}\nrelease ${s}", ""),
+    ("array_join", "r = array_join ${h} ${i}", ""),
+    ("array_concat", "c = array_concat ${h} ${h}\nr = array_length ${c}\nrelease ${c}", ""),
+    ("map_contains_value", "r = map_contains_value ${m} ${i}", "m = map\nmap_put ${m} k y"),
+    ("unset", "tmp = set ${i}\nunset tmp\nr = is_defined tmp", ""),
+    ("join_path", "r = join_path a ${i}", ""),
+];
+
+fn run_line_case(pad: usize, which: &str) -> String {
+    let Some((_, call, pre)) = LINE_CALLS.iter().find(|c| c.0 == which).copied() else { return "BAD-REQUEST".to_string() };
+    let items = ["x", "y", "z"];
+    let head = format!("{}h = array x y z\nlog = array\nr = set \"\"\n{}", "# pad\n".repeat(pad), if pre.is_empty() { String::new() } else { format!("{}\n", pre) });
+    let looped = format!("{}for i in ${{h}}\n{}\narray_push ${{log}} ${{i}}:${{r}}\nend\nn = array_length ${{log}}\nall = array_join ${{log}} ,\n", head, call);
+    let mut unrolled = head.clone();
+    for it in items {
+        unrolled.push_str(&format!("i = set {}\n{}\narray_push ${{log}} ${{i}}:${{r}}\n", it, call));
+    }
+    unrolled.push_str("n = array_length ${log}\nall = array_join ${log} ,\n");
+    let run = |text: &str| -> String {
+        let ctx = sdk_context();
+        let halt = guarded_halt(3000);
+        match duckscript::runner::run_script(text, ctx, Some(quiet_env(Some(halt)))) {
+            Ok(c) => format!("n={:?} all={:?} r={:?}", c.variables.get("n"), c.variables.get("all"), c.variables.get("r")),
+            Err(e) => format!("error {}", e),
+        }
+    };
+    let (a, b) = (run(&looped), run(&unrolled));
+    if a == b { "same-as-unrolled".to_string() } else { format!("LOOP-DIFFERS-FROM-UNROLLED looped: {} unrolled: {}", a.replace(' ', "_"), b.replace(' ', "_")) }
+}
+
 impl Prop for C19Prop {
     fn id(&self) -> &'static str {
         "C19"
@@ -968,6 +1005,12 @@ impl Prop for C19Prop {
     }
     fn fixed_cases(&self, _tier: Tier) -> Vec<Case> {
         let mut v = vec![Case { req: "c19scripts".to_string(), in_domain: true, nontrivial: true, tags: vec!["table"] }];
+        // the caller's `for` on every line index 3..14 around every looping script command
+        for (name, _, _) in LINE_CALLS.iter() {
+            for pad in 0..12 {
+                v.push(Case { req: format!("c19line {} {}", pad, name), in_domain: true, nontrivial: true, tags: vec!["caller-loop-line-coincidence"] });
+            }
+        }
         // one valid + one failing invocation of every command, in every form
         for form in ["top", "fn:2", "loop:2", "fnloop:2"] {
             v.push(fixed_hist(form, &[
@@ -1039,6 +1082,9 @@ impl Prop for C19Prop {
         if req == "c19scripts" {
             LAST_CLASSES.with(|c| *c.borrow_mut() = "table".to_string());
             check_table(model_out)
+        } else if req.starts_with("c19line ") {
+            let t: Vec<&str> = req.split(' ').collect();
+            run_line_case(t[1].parse().unwrap_or(0), t[2])
         } else if req.starts_with("c19wrap ") {
             run_wrap(req)
         } else {
@@ -1046,6 +1092,9 @@ impl Prop for C19Prop {
         }
     }
     fn relation(&self, req: &str, _model_out: &str, impl_out: &str) -> Option<bool> {
+        if req.starts_with("c19line ") {
+            return Some(impl_out == "same-as-unrolled");
+        }
         if !req.starts_with("c19hist ") || impl_out == "timeout" || impl_out == "PANIC" {
             return None;
         }
@@ -1105,6 +1154,9 @@ impl Prop for C19Prop {
         // Findings of this property, matched by the SHAPE of the failing invocations only; anything
         // else (a leaked / modified / removed variable, any other handle imbalance, any other
         // command) stays a violation.
+        if req.starts_with("c19line ") {
+            return None;
+        }
         if !req.starts_with("c19hist ") || impl_out == "timeout" || impl_out == "PANIC" {
             return None;
         }
